@@ -7,6 +7,8 @@
    bus_policy_rule_new                      [rule_new]
    append_rule_from_element                 [rule_from_element]  (attributes -> rule, "*" = absent)
    start of <policy> + bus_policy_append_*  [pctx], [policy_add], [load_policy]
+   list_allows_user / bus_policy_allow_unix_user  [list_allows_user], [allow_unix_user]
+   append_copy_of_policy_list / merge_id_hash / bus_policy_merge  [merge_alist], [policy_merge]
    bus_policy_create_client_policy          [create_client_policy]
    remove_rules_by_type_up_to               [remove_by_kind]
    bus_client_policy_optimize               [optimize_with], [optimize]  (condition from Gen/PolicyTables.v)
@@ -279,16 +281,27 @@ Definition optimize_with (catch_all : rule -> bool) (rules : list rule) : list r
 Definition optimize (rules : list rule) : list rule := optimize_with catch_all_c rules.
 
 (* ---------------------------------------------------------------- bus-wide policy *)
+(* a user= / group= rule (BUS_POLICY_RULE_USER / _GROUP): decides whether a connection may stay.  In C these sit in
+   the same default / mandatory lists as the other rules; the two readers of those lists (list_allows_user and
+   add_list_to_client) each skip the other's rule types, so they are kept in lists of their own here. *)
+Record conn_rule := mkConnRule {
+  cr_allow : bool;
+  cr_group : bool;          (* GROUP rule (else USER rule) *)
+  cr_id : option N          (* DBUS_UID_UNSET / DBUS_GID_UNSET ("*") = None *)
+}.
+
 Record policy := mkPolicy {
   p_default : list rule;
   p_mandatory : list rule;
   p_uid : list (N * list rule);
   p_gid : list (N * list rule);
   p_console_true : list rule;
-  p_console_false : list rule
+  p_console_false : list rule;
+  p_conn_default : list conn_rule;
+  p_conn_mandatory : list conn_rule
 }.
 
-Definition policy_empty : policy := mkPolicy [] [] [] [] [] [].
+Definition policy_empty : policy := mkPolicy [] [] [] [] [] [] [] [].
 
 Inductive pctx := CDefault | CMandatory | CUser (uid : N) | CGroup (gid : N) | CConsole (at_console : bool) | CIgnored.
 
@@ -307,14 +320,50 @@ Fixpoint alist_find (l : list (N * list rule)) (k : N) : list rule :=
 
 Definition policy_add (p : policy) (c : pctx) (r : rule) : policy :=
   match c with
-  | CDefault => mkPolicy (p_default p ++ [r]) (p_mandatory p) (p_uid p) (p_gid p) (p_console_true p) (p_console_false p)
-  | CMandatory => mkPolicy (p_default p) (p_mandatory p ++ [r]) (p_uid p) (p_gid p) (p_console_true p) (p_console_false p)
-  | CUser u => mkPolicy (p_default p) (p_mandatory p) (alist_append (p_uid p) u r) (p_gid p) (p_console_true p) (p_console_false p)
-  | CGroup g => mkPolicy (p_default p) (p_mandatory p) (p_uid p) (alist_append (p_gid p) g r) (p_console_true p) (p_console_false p)
-  | CConsole true => mkPolicy (p_default p) (p_mandatory p) (p_uid p) (p_gid p) (p_console_true p ++ [r]) (p_console_false p)
-  | CConsole false => mkPolicy (p_default p) (p_mandatory p) (p_uid p) (p_gid p) (p_console_true p) (p_console_false p ++ [r])
+  | CDefault => mkPolicy (p_default p ++ [r]) (p_mandatory p) (p_uid p) (p_gid p) (p_console_true p) (p_console_false p) (p_conn_default p) (p_conn_mandatory p)
+  | CMandatory => mkPolicy (p_default p) (p_mandatory p ++ [r]) (p_uid p) (p_gid p) (p_console_true p) (p_console_false p) (p_conn_default p) (p_conn_mandatory p)
+  | CUser u => mkPolicy (p_default p) (p_mandatory p) (alist_append (p_uid p) u r) (p_gid p) (p_console_true p) (p_console_false p) (p_conn_default p) (p_conn_mandatory p)
+  | CGroup g => mkPolicy (p_default p) (p_mandatory p) (p_uid p) (alist_append (p_gid p) g r) (p_console_true p) (p_console_false p) (p_conn_default p) (p_conn_mandatory p)
+  | CConsole true => mkPolicy (p_default p) (p_mandatory p) (p_uid p) (p_gid p) (p_console_true p ++ [r]) (p_console_false p) (p_conn_default p) (p_conn_mandatory p)
+  | CConsole false => mkPolicy (p_default p) (p_mandatory p) (p_uid p) (p_gid p) (p_console_true p) (p_console_false p ++ [r]) (p_conn_default p) (p_conn_mandatory p)
   | CIgnored => p
   end.
+
+(* a USER / GROUP rule appended to a context's list: only the default and mandatory lists are ever read for them *)
+Definition policy_add_conn (p : policy) (c : pctx) (cr : conn_rule) : policy :=
+  match c with
+  | CDefault => mkPolicy (p_default p) (p_mandatory p) (p_uid p) (p_gid p) (p_console_true p) (p_console_false p) (p_conn_default p ++ [cr]) (p_conn_mandatory p)
+  | CMandatory => mkPolicy (p_default p) (p_mandatory p) (p_uid p) (p_gid p) (p_console_true p) (p_console_false p) (p_conn_default p) (p_conn_mandatory p ++ [cr])
+  | _ => p
+  end.
+
+(* list_allows_user: the last USER/GROUP rule that names the user, one of the user's groups, or "*" decides *)
+Definition conn_rule_applies (cr : conn_rule) (uid : N) (groups : list N) : bool :=
+  match cr_id cr with
+  | None => true
+  | Some i => if cr_group cr then existsb (N.eqb i) groups else i =? uid
+  end.
+
+Definition list_allows_user (def : bool) (l : list conn_rule) (uid : N) (groups : list N) : bool :=
+  fold_left (fun allowed cr => if conn_rule_applies cr uid groups then cr_allow cr else allowed) l def.
+
+(* bus_policy_allow_unix_user.  [db_groups] is what _dbus_unix_groups_from_uid finds in the user database ([None]: the
+   lookup fails and the user is rejected); [owner] = _dbus_unix_user_is_process_owner (uid) *)
+Definition allow_unix_user (p : policy) (owner : bool) (uid : N) (db_groups : option (list N)) : bool :=
+  match db_groups with
+  | None => false
+  | Some groups => list_allows_user (list_allows_user owner (p_conn_default p) uid groups) (p_conn_mandatory p) uid groups
+  end.
+
+(* merge_id_hash: every list of [src] is appended to the list of the same id in [dest] *)
+Definition merge_alist (dest src : list (N * list rule)) : list (N * list rule) :=
+  fold_left (fun d e => fold_left (fun d' r => alist_append d' (fst e) r) (snd e) d) src dest.
+
+(* bus_policy_merge: the policy of an included file is appended list by list *)
+Definition policy_merge (p q : policy) : policy :=
+  mkPolicy (p_default p ++ p_default q) (p_mandatory p ++ p_mandatory q) (merge_alist (p_uid p) (p_uid q)) (merge_alist (p_gid p) (p_gid q))
+           (p_console_true p ++ p_console_true q) (p_console_false p ++ p_console_false q)
+           (p_conn_default p ++ p_conn_default q) (p_conn_mandatory p ++ p_conn_mandatory q).
 
 (* the rule list a connection gets before optimisation: default, each group of
    the connection (in the order of the credentials' group array, which
@@ -352,7 +401,7 @@ Record attrs := mkAttrs {
 Inductive elem_result :=
 | EErr                (* configuration error: the daemon refuses the file *)
 | ERule (r : rule)    (* a per-client rule *)
-| EConn.              (* a user= / group= rule (connection admission; not per-client) *)
+| EConn (cr : option conn_rule).  (* a user= / group= rule; [None]: the name is unknown (warning, no rule) *)
 
 (* dbus_message_type_from_string *)
 Definition type_from_string (s : bytes) : N :=
@@ -378,7 +427,14 @@ Definition int_attr (o : option Z) (def : N) : option N :=
   | Some z => if (z <? 0)%Z || (Z.of_N DBUS_MAXIMUM_MESSAGE_UNIX_FDS <? z)%Z then None else Some (Z.to_N z)
   end.
 
-Definition rule_from_element (allow : bool) (a : attrs) : elem_result :=
+(* [ru] / [rg]: _dbus_parse_unix_user_from_config / _dbus_parse_unix_group_from_config (user database look-up) *)
+Definition name_resolver := bytes -> option N.
+
+Definition conn_rule_of (allow group : bool) (res : name_resolver) (name : bytes) : option conn_rule :=
+  if bytes_eqb name s_star then Some (mkConnRule allow group None)
+  else match res name with Some i => Some (mkConnRule allow group (Some i)) | None => None end.
+
+Definition rule_from_element (ru rg : name_resolver) (allow : bool) (a : attrs) : elem_result :=
   let any_send := is_some (a_send_destination a) || is_some (a_send_destination_prefix a) || is_some (a_send_broadcast a) ||
                   is_some (a_send_path a) || is_some (a_send_type a) || is_some (a_send_interface a) ||
                   is_some (a_send_member a) || is_some (a_send_error a) || is_some (a_send_requested_reply a) in
@@ -439,27 +495,32 @@ Definition rule_from_element (allow : bool) (a : attrs) : elem_result :=
     | Some _ => ERule (mkRule KOwn allow (r_mtype r0) None None None None (unwild (a_own a)) 0 0 false false false TAny false)
     | None => ERule (mkRule KOwn allow (r_mtype r0) None None None None (a_own_prefix a) 0 0 false false false TAny true)
     end
-  else EConn.
+  else match a_user a with
+       | Some u => EConn (conn_rule_of allow false ru u)
+       | None => match a_group a with Some g => EConn (conn_rule_of allow true rg g) | None => EErr end
+       end.
 
 (* one <policy> element: its context and its <allow>/<deny> children in order *)
 Definition policy_elem := (pctx * list (bool * attrs))%type.
 
-Fixpoint load_rules (p : policy) (c : pctx) (els : list (bool * attrs)) : option policy :=
+Fixpoint load_rules (ru rg : name_resolver) (p : policy) (c : pctx) (els : list (bool * attrs)) : option policy :=
   match els with
   | [] => Some p
   | (allow, a) :: t =>
-      match rule_from_element allow a with
+      match rule_from_element ru rg allow a with
       | EErr => None
-      | ERule r => load_rules (policy_add p c r) c t
-      | EConn => match c with
-                 | CUser _ | CGroup _ => None   (* "rule cannot be per-user because it has bus-global semantics" *)
-                 | _ => load_rules p c t
-                 end
+      | ERule r => load_rules ru rg (policy_add p c r) c t
+      | EConn None => load_rules ru rg p c t
+      | EConn (Some cr) =>
+          match c with
+          | CUser _ | CGroup _ => None   (* "rule cannot be per-user because it has bus-global semantics" *)
+          | _ => load_rules ru rg (policy_add_conn p c cr) c t
+          end
       end
   end.
 
-Fixpoint load_policy (p : policy) (cfg : list policy_elem) : option policy :=
+Fixpoint load_policy (ru rg : name_resolver) (p : policy) (cfg : list policy_elem) : option policy :=
   match cfg with
   | [] => Some p
-  | (c, els) :: t => match load_rules p c els with None => None | Some p' => load_policy p' t end
+  | (c, els) :: t => match load_rules ru rg p c els with None => None | Some p' => load_policy ru rg p' t end
   end.
